@@ -17,7 +17,8 @@ PY = "/venv/bin/python"
 
 def match_known(fail, ent):
     oracles = ent["oracle"] if isinstance(ent["oracle"], list) else [ent["oracle"]]
-    if fail["oracle"] not in oracles or fail["site"] != ent["site"]:
+    sites = ent["site"] if isinstance(ent["site"], list) else [ent["site"]]
+    if fail["oracle"] not in oracles or fail["site"] not in sites:
         return False
     fp = fail.get("preds") or {}
     for k, v in (ent.get("preds") or {}).items():
@@ -208,6 +209,8 @@ def finish(prop, tier, a, meta, results, nshards, t0, tmpd):
                 print(f"  failing: oracle={f['oracle']} site={f['site']} preds={f['preds']} x{fail_counts.get(f['fp'], 1)}")
                 print(f"    detail: {json.dumps(f['detail'])[:300]}")
             print(f"VIOLATION property={prop} replay={path}")
+        for r in inconc[:5]:
+            print(f"  (also inconclusive: {r[-500:]})")
         shutil.rmtree(tmpd, ignore_errors=True)
         return 1
     if inconc:
